@@ -115,7 +115,19 @@ def run_spec(tier, name):
                 progs.append(r)
     if not progs:
         raise MachineryError("LogWeights.tla exported no program")
+    # vacuity guard: every action of the specification was taken, zero differences and negligible addends occurred
+    kinds = {o["op"] for p in progs for o in p["ops"]}
+    if kinds != {"add", "sub", "mul", "div", "iadd", "iaddp"}:
+        raise MachineryError(f"LogWeights.tla: actions never taken: {sorted({'add', 'sub', 'mul', 'div', 'iadd', 'iaddp'} - kinds)}")
+    if not any(p["ops"] and p["ops"][-1]["op"] == "sub" and p["regs"][2] and p["regs"][2][0] == 0 and p["regs"][o_a(p) - 1][0] for p in progs):
+        raise MachineryError("LogWeights.tla: no program with a zero difference of equal non-zero weights")
+    if not any(p["negdiffs"] for p in progs) or not any(p["mixed"] for p in progs):
+        raise MachineryError("LogWeights.tla: no smaller-first difference / mixed operator exported")
     return progs, {"generated": gen, "distinct": dist}
+
+
+def o_a(p):
+    return p["ops"][-1]["a"]
 
 
 # ---- exact value -> expected float --------------------------------------------------------------
@@ -309,6 +321,22 @@ def check_program(prog, B, LogRepFloat, viol, counts):
                 if bool(got[k]) != want[k]:
                     viol.append((f"C20:compare-plain:{k}", f"{desc}: (r{r} {k} {p!r}) is {got[k]}, real comparison value {c3}", rp))
                     break
+            # the plain number on the left (reflected operators, as in min(ratio, 1) and u < ratio of the transitions)
+            want = {"lt": c3 > 0, "le": c3 >= 0, "gt": c3 < 0, "ge": c3 <= 0, "eq": c3 == 0, "ne": c3 != 0}
+            got = {"lt": p < x, "le": p <= x, "gt": p > x, "ge": p >= x, "eq": p == x, "ne": p != x}
+            for k in want:
+                if bool(got[k]) != want[k]:
+                    viol.append((f"C20:compare-plain-reflected:{k}", f"{desc}: ({p!r} {k} r{r}) is {got[k]}, real comparison value {-c3}", rp))
+                    break
+            if pname == "p1":
+                counts["mixed"] += 1
+                got = -x
+                if isinstance(got, LogRepFloat) or math.isnan(got) or not abs(got + xv) <= max(1e-11 * (nops + 2), 4 * tol) * max(xv, 1e-300):
+                    viol.append(("C20:mixed:neg:value", f"{desc}: -r{r} = {got!r}, exact {-xv!r}", rp))
+                m1 = min(x, 1)
+                m1 = m1.val if isinstance(m1, LogRepFloat) else float(m1)
+                if not abs(m1 - min(xv, 1.0)) <= max(1e-11 * (nops + 2), 4 * tol):
+                    viol.append(("C20:mixed:min1:value", f"{desc}: min(r{r}, 1) = {m1!r}, exact {min(xv, 1.0)!r}", rp))
 
 
 def ev_of(prog, r):
@@ -667,6 +695,16 @@ def check_all(tier, name, seed=0):
     progs, stats = run_spec(tier, name)
     bases = BASES_QUICK if tier == "quick" else BASES_THOROUGH
     viol, counts = check_programs(progs, bases)
+    # binding self-test: a corrupted oracle value (exponent off by one) must be rejected by the comparison
+    import copy
+    from mici.utils import LogRepFloat
+    probe = copy.deepcopy(next(p for p in progs if p["ops"] and p["regs"][0][0]))
+    probe["regs"][0][3] += 1
+    probe["cmps"], probe["negdiffs"], probe["mixed"] = [], [], []
+    pv = []
+    check_program(probe, 0, LogRepFloat, pv, {"values": 0, "comparisons": 0, "negative_differences": 0, "mixed": 0})
+    if not pv:
+        raise MachineryError("binding self-test failed: a corrupted exact value was accepted")
     nviol, nn = numeric_checks(tier, seed)
     return {"viol": viol + nviol, "stats": stats, "programs": len(progs), "bases": [_bs(b) for b in bases], "counts": counts,
             "numeric_points": nn, "sample": progs[len(progs) // 2]}
